@@ -1754,7 +1754,7 @@ impl<'a, E: quiver_core::effects::Effect> Compiler<'a, E> {
             module_cache: &mut *self.module_cache,
             package: &self.current_package,
         };
-        let (bindings, binding_sets, result_type) = pattern::analyze_pattern(
+        let (bindings, binding_sets, matched_type, can_fail) = pattern::analyze_pattern(
             &mut env,
             self.program,
             &pattern,
@@ -1762,6 +1762,15 @@ impl<'a, E: quiver_core::effects::Effect> Compiler<'a, E> {
             &self.scopes,
             &value_provenance,
         )?;
+        // The matched type, widened with nil when a runtime requirement can fail. That nil stands
+        // for "the match failed", not "the value is nil", so the complement recorded for later
+        // branches must be computed from `matched_type` instead.
+        let result_type = if can_fail && !binding_sets.is_empty() {
+            let nil_id = self.program.register_type(Type::nil());
+            typing::union_type_ids(self.program, vec![nil_id, matched_type])
+        } else {
+            matched_type
+        };
 
         // Record every binding site in this pattern for the language server (go-to-definition
         // and hover). This is the single chokepoint for all bindings: top-level `name = ...`,
@@ -1897,7 +1906,7 @@ impl<'a, E: quiver_core::effects::Effect> Compiler<'a, E> {
                 );
             } else {
                 // Standard whole-value narrowing
-                n.record(&value_provenance, value_type, result_type, self.program);
+                n.record(&value_provenance, value_type, matched_type, self.program);
             }
         }
 
